@@ -4,15 +4,21 @@
  * kinds: bcast reduce allreduce allgather allgatherv alltoall alltoallv gather scatter reduce_scatter
  *        reduce_scatter_block barrier2 (two barriers; detects a rank leaving before the last one entered)
  *        ibarrier iexscan iscan ireduce_user iallreduce_user ireduce_scatter iscatter scatterv_inplace
- * `more`: for the v kinds / reduce_scatter 1 = per-rank counts differ (count + rank % 3); barrier kinds: skew in us.
- * `dtype`: 0 = MPI_INT, 1 = vector(2,1,2) of int (extent 12, size 8) for alltoallv.
+ *        iscan_user irsb_user (user op on contiguous(3)) ialltoall bcast_seq (3 back-to-back broadcasts)
+ *        reduce_user allreduce_user (blocking, user op; dtype 1 contiguous(3), 2 vector(2,1,2))
+ * `more`: for the v kinds / reduce_scatter 1 = per-rank counts differ (count + rank % 3), 2 = even ranks get count 0;
+ *         barrier kinds: skew in us.
+ * `dtype`: 0 = MPI_INT, 1 = vector(2,1,2) of int (extent 12, size 8) for alltoallv, contiguous(3) for the *_user kinds.
  * Prints "rank R OK" or "rank R WRONG ..." ; exit code stays 0 (the verdict is the text). */
 #include <mpi.h>
 #include <stdio.h>
 #include <stdlib.h>
 #include <string.h>
 #define V(r, i) ((r) * 1000 + (i) % 97 + 1)
-static void addmod(void* in, void* io, int* n, MPI_Datatype* t) { int* a = in; int* b = io; for (int i = 0; i < *n; i++) b[i] = (a[i] + b[i]) % 10007; }
+static void addmod(void* in, void* io, int* n, MPI_Datatype* t)
+{ /* MPI_INT, contiguous(3) or vector(2,1,2) (extent 3 ints, middle one is a gap and is left alone) */
+  int* a = in; int* b = io; int k = (*t == MPI_INT) ? 1 : 3; int size; MPI_Type_size(*t, &size);
+  for (int i = 0; i < *n * k; i++) if (!(size == 8 && i % 3 == 1)) b[i] = (a[i] + b[i]) % 10007; }
 int main(int argc, char** argv)
 {
   MPI_Init(&argc, &argv);
@@ -23,12 +29,13 @@ int main(int argc, char** argv)
   int bad = 0, first = -1, got = 0, want = 0;
 #define CHECK(idx, g, w) do { if ((g) != (w)) { if (!bad) { first = (idx); got = (g); want = (w); } bad++; } } while (0)
   int* cnt = malloc(n * sizeof(int)); int* dsp = malloc(n * sizeof(int)); int tot = 0;
-  for (int q = 0; q < n; q++) { cnt[q] = c + (more ? q % 3 : 0); dsp[q] = tot; tot += cnt[q]; }
+  for (int q = 0; q < n; q++) { cnt[q] = more == 2 ? (q % 2 ? c : 0) : c + (more ? q % 3 : 0); dsp[q] = tot; tot += cnt[q]; }
   int big = (tot > c * n ? tot : c * n) + 4;
   int* s = malloc((big + 4) * sizeof(int)); int* d = malloc((big + 4) * sizeof(int));
   for (int i = 0; i < big + 4; i++) { s[i] = -7; d[i] = -7; }
   if (!strcmp(k, "bcast")) {
     if (r == root) for (int i = 0; i < c; i++) d[i] = V(root, i);
+    if (more && r == 1 % n) smpi_execute_flops(1000.0 * more);      /* `more`: rank 1 arrives that many us late */
     MPI_Bcast(d, c, MPI_INT, root, MPI_COMM_WORLD);
     for (int i = 0; i < c; i++) CHECK(i, d[i], V(root, i));
     CHECK(c, d[c], -7);
@@ -105,15 +112,51 @@ int main(int argc, char** argv)
     /* user op on a committed contiguous(3) type: c elements = 3c ints */
     MPI_Op op; MPI_Op_create(addmod, 1, &op); MPI_Request q = MPI_REQUEST_NULL;
     MPI_Datatype t3; MPI_Type_contiguous(3, MPI_INT, &t3); MPI_Type_commit(&t3);
-    (void)t3;
-    for (int i = 0; i < c; i++) s[i] = V(r, i) % 10007;
-    if (!strcmp(k, "ireduce_user")) MPI_Ireduce(s, d, c, MPI_INT, op, root, MPI_COMM_WORLD, &q);
-    else if (!strcmp(k, "iallreduce_user")) MPI_Iallreduce(s, d, c, MPI_INT, op, MPI_COMM_WORLD, &q);
-    else if (!strcmp(k, "allreduce_user")) MPI_Allreduce(s, d, c, MPI_INT, op, MPI_COMM_WORLD);
-    else MPI_Reduce(s, d, c, MPI_INT, op, root, MPI_COMM_WORLD);
+    MPI_Datatype tv; MPI_Type_vector(2, 1, 2, MPI_INT, &tv); MPI_Type_commit(&tv);   /* dtype 2: {int, gap, int}; the op below then also
+       combines the gap slot, harmless: what is checked for dtype 2 is that the gap of the RECEIVE buffer keeps its -7 */
+    MPI_Datatype ty = dty == 2 ? tv : dty ? t3 : MPI_INT; int per = dty ? 3 : 1;      /* dtype 1: c elements of contiguous(3) = 3c ints */
+    for (int i = 0; i < c * per; i++) s[i] = V(r, i) % 10007;
+    if (!strcmp(k, "ireduce_user")) MPI_Ireduce(s, d, c, ty, op, root, MPI_COMM_WORLD, &q);
+    else if (!strcmp(k, "iallreduce_user")) MPI_Iallreduce(s, d, c, ty, op, MPI_COMM_WORLD, &q);
+    else if (!strcmp(k, "allreduce_user")) MPI_Allreduce(s, d, c, ty, op, MPI_COMM_WORLD);
+    else MPI_Reduce(s, d, c, ty, op, root, MPI_COMM_WORLD);
     if (q != MPI_REQUEST_NULL) MPI_Wait(&q, MPI_STATUS_IGNORE);
-    if (k[0] != 'i' && k[0] != 'r' ? 1 : (strstr(k, "allreduce") || r == root))
-      for (int i = 0; i < c; i++) { int w = 0; for (int p = 0; p < n; p++) w = (w + V(p, i) % 10007) % 10007; CHECK(i, d[i], w); }
+    if (strstr(k, "allreduce") || r == root)
+      for (int i = 0; i < c * per; i++) {
+        if (dty == 2 && i % 3 == 1) { CHECK(i, d[i], -7); continue; }   /* gap of the vector type: not part of the receive buffer */
+        int w = 0; for (int p = 0; p < n; p++) w = (w + V(p, i) % 10007) % 10007; CHECK(i, d[i], w); }
+  } else if (!strcmp(k, "iscan_user") || !strcmp(k, "irsb_user")) {
+    /* user op on contiguous(3): MPI_Iscan of c elements, or MPI_Ireduce_scatter_block of c elements per rank */
+    MPI_Op op; MPI_Op_create(addmod, 1, &op); MPI_Request q;
+    MPI_Datatype t3; MPI_Type_contiguous(3, MPI_INT, &t3); MPI_Type_commit(&t3);
+    int sc = k[1] == 's';
+    int items = (sc ? c : c * n) * 3;
+    int* S = malloc((items + 8) * sizeof(int)); int* D = malloc((items + 8) * sizeof(int));
+    for (int i = 0; i < items; i++) { S[i] = V(r, i) % 10007; D[i] = -7; }
+    if (sc) MPI_Iscan(S, D, c, t3, op, MPI_COMM_WORLD, &q); else MPI_Ireduce_scatter_block(S, D, c, t3, op, MPI_COMM_WORLD, &q);
+    if (more) smpi_execute_flops(1000.0 * more);
+    MPI_Wait(&q, MPI_STATUS_IGNORE);
+    for (int i = 0; i < c * 3; i++) {
+      int w = 0, src = sc ? i : r * c * 3 + i;
+      for (int p = 0; p < (sc ? r + 1 : n); p++) w = (w + V(p, src) % 10007) % 10007;
+      CHECK(i, D[i], w);
+    }
+  } else if (!strcmp(k, "ialltoall")) {
+    MPI_Request q;
+    for (int p = 0; p < n; p++) for (int i = 0; i < c; i++) s[p * c + i] = V(r, p * 7 + i);
+    if (ip) memcpy(d, s, n * c * sizeof(int));
+    MPI_Ialltoall(ip ? MPI_IN_PLACE : s, c, MPI_INT, d, c, MPI_INT, MPI_COMM_WORLD, &q);
+    if (more) smpi_execute_flops(1000.0 * more);
+    MPI_Wait(&q, MPI_STATUS_IGNORE);
+    for (int p = 0; p < n; p++) for (int i = 0; i < c; i++) CHECK(p * c + i, d[p * c + i], V(p, r * 7 + i));
+  } else if (!strcmp(k, "bcast_seq")) { /* back-to-back broadcasts: count 0 from rank 1, barrier, 3 ints from rank 0, c ints from rank 1 */
+    int roots[3] = {1 % n, 0, 1 % n}, cnts[3] = {0, 3, c};
+    for (int j = 0; j < 3; j++) {
+      for (int i = 0; i < cnts[j]; i++) d[i] = r == roots[j] ? V(roots[j], i + j) : -7;
+      MPI_Bcast(d, cnts[j], MPI_INT, roots[j], MPI_COMM_WORLD);
+      for (int i = 0; i < cnts[j]; i++) CHECK(j * 1000 + i, d[i], V(roots[j], i + j));
+      if (j == 0) { if (r == n - 1) smpi_execute_flops(3e6); MPI_Barrier(MPI_COMM_WORLD); }
+    }
   } else if (!strcmp(k, "iscatter")) {
     MPI_Request q;
     if (r == root) for (int p = 0; p < n; p++) for (int i = 0; i < c; i++) s[p * c + i] = V(p, i);
